@@ -1234,8 +1234,11 @@ def rule_kpm_numerics(rep: Report, repo: Repo):
     COEF = coef_names[0]
     ctxt = rtext(stores[COEF][0].value, env_at(stores[COEF][0], g))
     aug = [norm(n) for n in ast.walk(lp) if isinstance(n, ast.AugAssign)]
-    ok = ctxt == "-2 / np.sqrt(1 - energy ** 2) * np.sin(np.arange(num_moments) * np.arccos(energy))" \
-        and f"{COEF}[0] /= 2" in aug and f"{COEF} *= jackson_kernel(num_moments)" in aug
+    from .scalar import same as _same
+    eq = _same(ctxt, "-2 / np.sqrt(1 - energy ** 2) * np.sin(np.arange(num_moments) * np.arccos(energy))")
+    if eq is None:
+        raise AnalysisError(R, f"kpm.greens_function: coefficient formula `{ctxt[:90]}` is outside the scalar language of sv/scalar.py")
+    ok = eq and f"{COEF}[0] /= 2" in aug and f"{COEF} *= jackson_kernel(num_moments)" in aug
     rep.check(ok, R, "kpm::greens_function Chebyshev coefficients of 1/(E - x): -2 sin(n arccos E)/sqrt(1 - E^2), halved at n = 0, Jackson-damped",
               f"{ctxt[:100]}; " + "; ".join(aug), loc(g))
     sol = stores.get(SOL, [])
@@ -1304,7 +1307,20 @@ def rule_kpm_numerics(rep: Report, repo: Repo):
             raise AnalysisError(R, f"kpm.rescale returns `{norm(v)[:60]}`")
         h, (a_, b_) = v.elts[0], v.elts[1].elts
         forms.add(norm(h)[:120])
-        good = norm(a_) == A_T and norm(b_) == B_T and any(norm(h) == f"(hamiltonian - {B_T} * {i_}) / ({A_T})" or
-                                                             norm(h) == f"(hamiltonian - {B_T} * {i_}) / {A_T}" for i_ in IDS)
+        sa, sb = _same(a_, A_T), _same(b_, B_T)
+        if sa is None or sb is None:
+            raise AnalysisError(R, f"kpm.rescale: parameters `{norm(a_)[:50]}`, `{norm(b_)[:50]}` are outside the scalar language of sv/scalar.py")
+        good = bool(sa and sb)
+        # (H - b * 1) / a, the scalars up to algebra, the identity in one of the known spellings
+        if isinstance(h, ast.BinOp) and isinstance(h.op, ast.Div) and isinstance(h.left, ast.BinOp) and isinstance(h.left.op, ast.Sub) \
+                and norm(h.left.left) == "hamiltonian" and isinstance(h.left.right, ast.BinOp) and isinstance(h.left.right.op, ast.Mult):
+            m_ = h.left.right
+            sc_, id_ = (m_.left, m_.right) if norm(m_.right) in IDS else (m_.right, m_.left)
+            sh = (_same(sc_, B_T), _same(h.right, A_T))
+            if None in sh:
+                raise AnalysisError(R, f"kpm.rescale: rescaled Hamiltonian `{norm(h)[:80]}` not understood")
+            good = good and norm(id_) in IDS and all(sh)
+        else:
+            raise AnalysisError(R, f"kpm.rescale: rescaled Hamiltonian `{norm(h)[:80]}` is not of the form (H - b * 1) / a")
         ok = ok and good
     rep.check(ok, R, "kpm::rescale returns (H - b)/a with a = bandwidth/(2 - eps), b = band centre", str(sorted(forms)), repo.loc("kpm", rs))
